@@ -344,6 +344,7 @@ class Interp:
                         err_out = {"Error": e.name, "Cause": ANY}    # Cause texts are implementation-defined
                         out = self.result_path(c, raw, err_out, t_fail)
                         trace.append(("caught", name, e.name))
+                        trace.append(("exit?", name, copy.deepcopy(out)))   # a caught state may or may not log StateExited
                         return out, c["Next"], t_fail
                 e.t = t_fail
                 raise
